@@ -152,8 +152,15 @@ pub fn run(cases_path: &str, report_path: &str, _opts: &[String]) {
                 }
                 // every entry of the input that the reader accepted is written back (recognised entries for all
                 // models; unknown entries are only generated for models with a catch-all)
-                if !keeps(&v["w1"], &v["d"]) {
-                    let lost: Vec<String> = v["d"]["v"].as_object().map(|m| m.iter().filter(|(k, x)| !v["w1"]["v"].get(k.as_str()).map(|w| keeps(w, x)).unwrap_or(false)).map(|(k, _)| k.clone()).collect()).unwrap_or_default();
+                // hand-written pairs may legitimately normalise the form (drop an optional /Type, write a dictionary with only a base
+                // encoding as a name ...): for them only the entries listed in `must_keep` are required to survive
+                let must_keep: Option<Vec<String>> = case["must_keep"].as_array().map(|a| a.iter().map(|k| k.as_str().unwrap().to_string()).collect());
+                let kept_ok = match &must_keep {
+                    None => keeps(&v["w1"], &v["d"]),
+                    Some(keys) => keys.iter().all(|k| match v["d"]["v"].get(k.as_str()) { Some(x) => v["w1"]["v"].get(k.as_str()).map(|w| keeps(w, x)).unwrap_or(false), None => true }),
+                };
+                if !kept_ok {
+                    let lost: Vec<String> = v["d"]["v"].as_object().map(|m| m.iter().filter(|(k, _)| must_keep.as_ref().map(|mk| mk.contains(k)).unwrap_or(true)).filter(|(k, x)| !v["w1"]["v"].get(k.as_str()).map(|w| keeps(w, x)).unwrap_or(false)).map(|(k, _)| k.clone()).collect()).unwrap_or_default();
                     rep.fail(&format!("preservation:{}:{}", model, lost.join("+")), json!({"case_index": ci, "case": case, "lost": lost, "d": v["d"], "w1": v["w1"]}));
                 }
             }
